@@ -334,3 +334,11 @@ ADDED3 = {
 }
 for _p in CHECKS:
     CHECKS[_p]["text"] = CHECKS[_p]["text"] + " " + ADDED3.get(_p, "")
+
+
+# Round 4 and the suite-passing mutant survey (DESIGN.md sections 8 and 11).
+_GEN4 = ("Generic, in every anchored module: no loop body ends in an unconditional break / return; every read of a local variable is "
+         "bound on every path (reaching definitions); containers on `self` are filled only by the frozen documented mutators; no "
+         "default argument constructs a shared object.")
+for _p in CHECKS:
+    CHECKS[_p]["text"] = CHECKS[_p]["text"] + " " + _GEN4
